@@ -380,7 +380,7 @@ fn generated_wide(r: &mut Report) {
 /// distance function ever accepts a near miss in a key field, the indexed lookup must still find what the scan finds.
 fn generated_near_keys(r: &mut Report) {
     use TcpOption::*;
-    let layouts: Vec<Vec<TcpOption>> = vec![vec![Mss], vec![Mss, Nop], vec![Mss, Eol(0)], vec![Mss, Eol(1)], vec![Mss, Eol(2)], vec![Mss, Unknown(9)], vec![Mss, Unknown(10)], vec![Nop, Mss], vec![Mss, Nop, Nop], vec![]];
+    let layouts: Vec<Vec<TcpOption>> = vec![vec![Mss], vec![Mss, Nop], vec![Mss, Eol(0)], vec![Mss, Eol(1)], vec![Mss, Eol(2)], vec![Mss, Eol(3), Eol(2), Eol(1), Eol(0)], vec![Mss, Eol(1), Nop], vec![Mss, Eol(1), Eol(0)], vec![Mss, Unknown(9)], vec![Mss, Unknown(10)], vec![Nop, Mss], vec![Mss, Nop, Nop], vec![]];
     let mut ta = vec![];
     for ver in [IpVersion::V4, IpVersion::Any] {
         for pc in [PayloadSize::Zero, PayloadSize::Any] {
